@@ -17,6 +17,11 @@ pub struct Case {
     pub ws_only: bool,
     /// third string for the triangle inequality
     pub c: String,
+    /// a and b are repeated this many times (0 = once): long strings without long cases
+    #[serde(default)]
+    pub rep_a: usize,
+    #[serde(default)]
+    pub rep_b: usize,
 }
 
 pub struct C12;
@@ -67,10 +72,23 @@ fn derive(a: &[String], edits: &[(u8, u16, String)]) -> Vec<String> {
     v
 }
 
+fn edit2(alpha: &'static [&'static str]) -> impl Strategy<Value = (u8, u16, String)> + Clone {
+    (any::<u8>(), any::<u16>(), select(alpha).prop_map(str::to_string))
+}
+
 fn pair(graphemes: bool) -> BoxedStrategy<(String, String, String)> {
     let alpha: &'static [&'static str] = if graphemes { ALPHA_G } else { ALPHA_CP };
     let edit = (any::<u8>(), any::<u16>(), select(alpha).prop_map(str::to_string));
-    prop_oneof![
+    // lengths at and around 64, 128, 256 characters
+    let boundary = (select(alpha), select(vec![63usize, 64, 65, 127, 128, 129, 255, 256, 257]), proptest::collection::vec(edit2(alpha), 0..=4), proptest::collection::vec(edit2(alpha), 0..=4))
+        .prop_map(|(t, n, e1, e2)| {
+            let base: Vec<String> = vec![t.to_string(); n];
+            // substitutions and swaps keep the length of a exactly; b gets arbitrary edits
+            let a = derive(&base, &e1.iter().map(|(k, p, w)| (2 + k % 2, *p, w.clone())).collect::<Vec<_>>());
+            let b = derive(&a, &e2);
+            (a.concat(), b.concat(), String::new())
+        });
+    let usual = prop_oneof![
         5 => (toks(graphemes, 8), toks(graphemes, 8), toks(graphemes, 6))
             .prop_map(|(a, b, c)| (a.concat(), b.concat(), c.concat())),
         4 => (toks(graphemes, 10), proptest::collection::vec(edit.clone(), 1..=3), proptest::collection::vec(edit, 0..=2))
@@ -87,8 +105,8 @@ fn pair(graphemes: bool) -> BoxedStrategy<(String, String, String)> {
                 (a.concat(), b.concat(), String::new())
             }),
         1 => (gen::text(6), gen::text(6), gen::text(3)),
-    ]
-    .boxed()
+    ];
+    prop_oneof![120 => usual, 1 => boundary].boxed()
 }
 
 fn apply_script(
@@ -184,14 +202,24 @@ impl Prop for C12 {
     fn strategy(_tier: Tier, _shard: u32) -> BoxedStrategy<Case> {
         (any::<bool>(), any::<bool>(), any::<bool>())
             .prop_flat_map(|(g, s, w)| {
-                pair(g).prop_map(move |(a, b, c)| Case {
-                    a,
-                    b,
-                    c,
-                    graphemes: g,
-                    swap: s,
-                    ws_only: w,
-                })
+                // one pair in 15000: several hundred x a few thousand characters (more than 2^20 matrix
+                // cells); a is then often a prefix of b (same unit)
+                let long = (
+                    proptest::collection::vec(select(if g { ALPHA_G } else { ALPHA_CP }), 1..=2),
+                    proptest::collection::vec(select(if g { ALPHA_G } else { ALPHA_CP }), 1..=2),
+                    any::<bool>(),
+                    prop_oneof![(320usize..=420, 1300usize..=1600), (1300usize..=1600, 320usize..=420)],
+                )
+                    .prop_map(|(ua, ub, same, (rep_a, rep_b))| {
+                        let a = ua.concat();
+                        let b = if same { a.clone() } else { ub.concat() };
+                        (a, b, String::new(), rep_a, rep_b)
+                    });
+                prop_oneof![
+                    7500 => pair(g).prop_map(|(a, b, c)| (a, b, c, 0usize, 0usize)),
+                    1 => long,
+                ]
+                .prop_map(move |(a, b, c, rep_a, rep_b)| Case { a, b, c, graphemes: g, swap: s, ws_only: w, rep_a, rep_b })
             })
             .boxed()
     }
@@ -204,15 +232,26 @@ impl Prop for C12 {
         vec![
             "reference = memoised suffix recursion written from the definition (validated against BFS over edit sequences on all pairs of length <= 3 over {a,b} at start-up)".into(),
             "characters of the reference are the clusters reported by unicode-segmentation 1.x (grapheme mode) / code points".into(),
-            "strings up to 120 characters; normalised prefix distance only checked for non-empty a".into(),
+            "strings up to 120 characters, lengths at and around 64/128/256, and one pair in 7500 of several hundred x a few thousand characters (a short unit repeated); normalised prefix distance only checked for non-empty a".into(),
         ]
     }
 
     fn check(c: &Case, strict: bool) -> Outcome {
         let mut out = Outcome::new();
         let g = c.graphemes;
+        let eff;
+        let c = if c.rep_a > 1 || c.rep_b > 1 {
+            eff = Case { a: c.a.repeat(c.rep_a.max(1)), b: c.b.repeat(c.rep_b.max(1)), rep_a: 0, rep_b: 0, ..c.clone() };
+            &eff
+        } else {
+            c
+        };
         let av = gen::clusters(&c.a, g);
         let bv = gen::clusters(&c.b, g);
+        out.label_if((av.len() + 1) * (bv.len() + 1) > 1 << 20, "more_than_2^20_cells");
+        for n in [av.len(), bv.len()] {
+            out.label_if(matches!(n, 63..=65 | 127..=129 | 255..=257), "length_at_a_power_of_two");
+        }
         let want = model::ref_distance(&av, &bv, c.swap, c.ws_only);
         let maxlen = av.len().max(bv.len());
         out.nontrivial = want >= 2 && want < maxlen;
@@ -261,8 +300,9 @@ impl Prop for C12 {
         // --- prefix distance (the reference costs |b| full DPs: long pairs use every 8th prefix as a bound only)
         let pd = edit::prefix_distance(&c.a, &c.b, g, c.swap, c.ws_only, false);
         if bv.len() > 48 {
-            let bound = (0..=bv.len()).step_by(8).map(|k| model::ref_distance(&av, &bv[..k], c.swap, c.ws_only)).min().unwrap();
-            ensure!(out, pd <= bound as f64 && pd >= 0.0, "prefix_distance {pd} exceeds the distance {bound} to one of the prefixes");
+            // long pairs: one-pass reference (reversed strings), exact
+            let want_p = model::ref_prefix_distance(&av, &bv, c.swap, c.ws_only);
+            ensure!(out, pd == want_p as f64, "prefix_distance of a ({} characters) and b ({} characters) = {pd}, reference {want_p}", av.len(), bv.len());
             return finish_ops(c, &av, &bv, want, out);
         }
         let want_p = (0..=bv.len())
@@ -270,6 +310,8 @@ impl Prop for C12 {
             .min()
             .unwrap();
         ensure!(out, pd == want_p as f64, "prefix_distance({:?},{:?}) = {pd}, reference {want_p}", c.a, c.b);
+        let one_pass = model::ref_prefix_distance(&av, &bv, c.swap, c.ws_only);
+        ensure!(out, one_pass == want_p, "harness: one-pass prefix reference {one_pass} != per-prefix reference {want_p} for {:?} {:?}", c.a, c.b);
         if !av.is_empty() {
             let pdn = edit::prefix_distance(&c.a, &c.b, g, c.swap, c.ws_only, true);
             let w = want_p as f64 / av.len() as f64;
